@@ -116,6 +116,22 @@ CLAIMS = {
              "outside the property's alphabet; the table itself has no direction.",
         technique="Coq proof (complete kernel enumeration of the step relation + induction over histories) + translator + exhaustive graph correspondence",
         design="4/C03"),
+    "C01": dict(
+        text="Coq theorems (axiom-free) over the model of all 21 xDLMS APDU kinds, the four request/response factories and the "
+             "tag dispatch of XDlmsApduFactory (tag map, enumerations and service-error maps generated from the source on "
+             "every run): for EVERY value in the stated domain - all invoke-ids and flag bits, every enumeration member, "
+             "all 2^48 OBIS codes, ids 0..255, block numbers / counters / long-invoke-ids of their full range, payloads and "
+             "ciphertexts of ANY length below 2^32 (so every length-prefix boundary) - the encoder produces exactly the "
+             "bytes of an independent Green-Book/A-XDR reference encoder, and the tag-dispatching decoder maps those bytes "
+             "back to the same value; hence two different values never share an encoding. Correspondence compares "
+             "to_bytes and XDlmsApduFactory.apdu_from_bytes with the model on boundary-complete grids, malformed and "
+             "truncated inputs; the search compares the implementation with the extracted reference encoder directly.",
+        note="Value domain (boolean wf_apdu, inhabited for every kind): optional fields the code treats by truthiness are "
+             "identified with their falsy representative; two classes are outside it and proved NOT to round-trip - "
+             "known findings F01e (GetRequestNormal access selection) and F01f (InitiateRequest quality of service / "
+             "version / response-allowed are never encoded). The with-list variants are not representable in the library.",
+        technique="Coq proof (per-kind layout and inverse theorems) + generated tables + differential correspondence",
+        design="4/C01"),
     "C05": dict(
         text="Coq theorems (axiom-free), for an ARBITRARY block function with 16-byte output and hence for AES: protecting a "
              "plaintext yields GCM ciphertext || first 12 tag bytes with nonce = title || 4-byte counter and AAD = "
